@@ -642,9 +642,21 @@ func (e *e2e) runE2E(c *Case, topic string) error {
 	var pm sync.Mutex
 	uris := map[uint64]string{}
 	c.Outs, c.Clock = nil, nil
+	var start, elapsed int64
+	for _, o := range c.Ops {
+		if o.K == "Tick" {
+			start = alignSecond() // whole-second reasoning about the relay's 30 s code lifetime
+			break
+		}
+	}
 	for i, o := range c.Ops {
-		c.Clock = append(c.Clock, 0)
+		c.Clock = append(c.Clock, elapsed)
 		switch o.K {
+		case "Tick":
+			elapsed += o.Dt
+			c.Clock[i] = elapsed
+			time.Sleep(time.Until(time.Unix(start+elapsed, 50e6)))
+			c.Outs = append(c.Outs, Out{K: "U"})
 		case "Submit":
 			uri, ok := e.session(topic, bidFor(topic, o.B))
 			if !ok {
@@ -907,7 +919,7 @@ func childE2E(inPath, outPath string) {
 	}
 }
 
-func runE2EChild(cs []*Case, res *lib.Result, dir string) {
+func runE2EChild(cs []*Case, res *lib.Result, dir string, final bool) bool {
 	var f e2eFile
 	for _, c := range cs {
 		f.Cases = append(f.Cases, *c)
@@ -945,25 +957,32 @@ func runE2EChild(cs []*Case, res *lib.Result, dir string) {
 	}
 	if err := cmd.Start(); err != nil {
 		fail("could not be started: " + err.Error())
-		return
+		return true
 	}
 	go func() { done <- cmd.Wait() }()
 	select {
 	case err := <-done:
 		if err != nil {
 			fail("died (" + err.Error() + ")")
-			return
+			return true
 		}
 	case <-time.After(10 * time.Minute):
 		cmd.Process.Kill()
 		fail("did not finish in 10 min (watchdog)")
-		return
+		return true
 	}
 	ob, err := os.ReadFile(outp)
 	var g e2eFile
 	if err != nil || json.Unmarshal(ob, &g) != nil || len(g.Cases) != len(cs) {
 		fail("left no results")
-		return
+		return true
+	}
+	if !final {
+		for _, c := range g.Cases {
+			if strings.HasPrefix(c.Discard, "e2e-setup") {
+				return false
+			}
+		}
 	}
 	for i, c := range cs {
 		*c = g.Cases[i]
@@ -980,6 +999,7 @@ func runE2EChild(cs []*Case, res *lib.Result, dir string) {
 	}
 	os.Remove(in)
 	os.Remove(outp)
+	return true
 }
 
 var resMu sync.Mutex
@@ -1074,6 +1094,15 @@ func main() {
 		for i := 0; i < nE2E; i++ {
 			cases = append(cases, genE2E(rng.Fork()))
 		}
+		if a.Tier == "thorough" {
+			// the relay's own store has a 30 s lifetime: one code presented at +5 s, one at +32 s
+			for k := 0; k < 2; k++ {
+				cases = append(cases, Case{Kind: "e2e", TTL: 30, Ops: []Op{
+					{K: "Submit", C: 1, T: 1, B: 1}, {K: "Submit", C: 2, T: 1, B: 2}, {K: "Submit", C: 3, T: 1, B: 1},
+					{K: "Tick", Dt: 5}, {K: "Exchange", C: 1}, {K: "Tick", Dt: int64(25 + k*2)}, {K: "Exchange", C: 3},
+					{K: "Tick", Dt: int64(2 - k*2 + 1)}, {K: "Exchange", C: 2}, {K: "Exchange", C: 1}}})
+			}
+		}
 		for i := 0; i < nE2ERace; i++ {
 			c := genRace(rng.Fork())
 			c.Kind, c.TTL = "e2e-race", 30
@@ -1117,7 +1146,21 @@ func main() {
 	}
 	if len(relayCases) > 0 {
 		wg.Add(1)
-		go func() { defer wg.Done(); runE2EChild(relayCases, res, a.Out) }()
+		go func() {
+			defer wg.Done()
+			pristine := make([]Case, len(relayCases))
+			for i, c := range relayCases {
+				pristine[i] = *c
+			}
+			if !runE2EChild(relayCases, res, a.Out, false) {
+				// set-up trouble (a session refused out of the blue, the child gone before any result):
+				// most likely the free ports were taken in between; a real defect shows again
+				for i, c := range relayCases {
+					*c = pristine[i]
+				}
+				runE2EChild(relayCases, res, a.Out, true)
+			}
+		}()
 	}
 	if a.Replay == "" {
 		wg.Add(2)
